@@ -43,6 +43,7 @@ import numpy as np
 
 import romsfiles as rf
 
+import c18_order
 import c18_scale
 
 PROP = "C18"
@@ -694,12 +695,21 @@ def eval_case(desc, ctx):
         desc = dict(desc, files=c18_scale.file_list(desc["n"]))
         d = make_dir(ctx, dict(desc, files=[]), f"case_{desc['id']}")
         c18_scale.populate(d, master_dir(ctx), desc["n"])
+    elif desc["k"] == "order":
+        m = master_dir(ctx)
+        if not (m / c18_order.GRID_B).exists():
+            c18_order.write_grid_b(m / "grid_b.tmp.nc")
+            os.replace(m / "grid_b.tmp.nc", m / c18_order.GRID_B)
+        desc = dict(desc, files=RUN_FILES + [c18_order.GRID_B])
+        d = make_dir(ctx, desc, f"case_{desc['id']}")
     else:
         d = make_dir(ctx, desc, f"case_{desc['id']}")
     os.chdir(d)
     try:
         if desc["k"] == "scale":
             return eval_scale(desc, ctx, d)
+        if desc["k"] == "order":
+            return eval_order(desc, ctx, d)
         if desc["k"] == "sim":
             return eval_sim(desc, ctx, d)
         return eval_tree(desc, ctx, d)
@@ -731,6 +741,60 @@ def eval_scale(desc, ctx, d):
     res["kind"] = "scale-" + res["kind"]
     res["observed"]["label"] = desc["label"]
     return res
+
+
+def eval_order(desc, ctx, d):
+    """one simulation written the canonical way (version 2 YAML, usual order) and in another legal arrangement of the
+    same information (c18_order.py): same module arguments, same output file"""
+    import random
+
+    rng = random.Random(desc["id"] * 7919 + 3)
+    S0, label = desc["S"], desc["label"]
+    S1 = c18_order.permuted_names(S0, desc["cols"]) if desc.get("cols") else S0
+    expansion = expansion_of(S0["forcing_file"], desc["files"])
+    assert wf(S0, expansion) and wf(S1, expansion)
+    dialect = desc["dialect"]
+    tree = c18_order.apply(desc["arr"], tree_v1(S1) if dialect == "v1" else tree_v2(S1, False))
+    ref_text = emit_yaml(tree_v2(S0, False), rng)
+    arr_name = "arr.toml" if dialect == "v2toml" else "arr.yaml"
+    arr_text = emit_toml(tree, rng) if dialect == "v2toml" else emit_yaml(tree, rng)
+    Path("ref.yaml").write_text(ref_text, encoding="utf-8")
+    Path(arr_name).write_text(arr_text, encoding="utf-8")
+    oracle = None
+    obs, norm = {}, {}
+    for name, fname in (("canonical v2 YAML", "ref.yaml"), (label, arr_name)):
+        obs[name], note = call_configure(fname)
+        norm[name] = try_normalize(obs[name])
+        if oracle is None and (obs[name][0] != "ok" or norm[name] is None or norm[name][0] != "ok"):
+            oracle = f"[{name}] refused: {obs[name] if obs[name][0] != 'ok' else norm[name]} {note or ''}"
+    ref, arr = "canonical v2 YAML", label
+    if oracle is None and not desc.get("cols") and norm[arr][1] != norm[ref][1]:
+        oracle = f"(a) module arguments differ from those of the canonical v2 YAML file: {diff(norm[ref][1], norm[arr][1])}"
+    if oracle is None and desc.get("cols"):
+        a, b = copy.deepcopy(norm[ref][1]), copy.deepcopy(norm[arr][1])
+        for x in (a, b):  # the column order is what was permuted; everything else must agree
+            x["release"]["names"] = sorted(x["release"].get("names") or [])
+        if a != b:
+            oracle = f"(a) module arguments (release columns as a set) differ from those of the canonical v2 YAML file: {diff(a, b)}"
+    ran = False
+    if oracle is None and desc.get("run"):
+        outs = {}
+        for name, fname, S in ((ref, "ref.yaml", S0), (arr, arr_name, S1)):
+            write_release_file(d, S)
+            Path("out.nc").unlink(missing_ok=True)
+            msg = run_main(fname)
+            outs[name] = ("failed: " + msg) if msg else read_output("out.nc")
+        ran = True
+        if isinstance(outs[ref], str):
+            oracle = f"(b) generator problem, the canonical file does not run: {outs[ref]}"
+        elif outs[arr] != outs[ref]:
+            oracle = (f"(b) output differs from that of the canonical v2 YAML run: "
+                      f"{outs[arr] if isinstance(outs[arr], str) else diff(outs[ref], outs[arr])}")
+    if oracle:
+        oracle = (f"arrangement case [{label}] (forcing {S0['forcing_file']!r}, grid file {S0['grid_file']!r}, "
+                  f"release columns {S1['names']}): {oracle}")
+    return {"ints": None, "oracle": oracle, "nontrivial": "order: " + label, "kind": "order-run" if ran else "order",
+            "observed": {"label": label, "ran": ran, "grid": short(obs[arr]).get("grid") if obs[arr][0] == "ok" else obs[arr]}}
 
 
 def brief(l):
@@ -1075,6 +1139,8 @@ def gen_cases(ctx):
     nsim, nrun, ntree = (70, 26, 90) if ctx.quick else (700, 260, 700)
     # scale cases first: deterministic, no random draws (the random cases below are what they were)
     out = c18_scale.scale_cases()
+    # arrangement cases next: deterministic as well (c18_order.py)
+    out += c18_order.order_cases()
     cid = 0
     for i in range(nsim):
         run = i < nrun
